@@ -658,6 +658,9 @@ func run(c Case) (res *vkit.Result) {
 	if c.Conc != nil {
 		return runConc(c)
 	}
+	if c.Rot != nil {
+		return runRot(c)
+	}
 	if why := validCase(c); why != "" {
 		res.Grey = true
 		res.Label("invalid-case")
